@@ -3,6 +3,7 @@
 
 import abc
 import asyncio
+import collections.abc
 import contextlib
 import copy
 import enum
@@ -777,7 +778,8 @@ class Process(StateMachine, persistence.Savable, metaclass=ProcessStateMachineMe
 
         def recursively_copy_dictionaries(value: Any) -> Any:
             """Recursively copy the mapping but only create copies of the dictionaries not the values."""
-            if isinstance(value, dict):
+            # (any mutable mapping, not only a ``dict``: ``pre_process`` would fill the defaults into the caller's object)
+            if isinstance(value, collections.abc.MutableMapping):
                 return {key: recursively_copy_dictionaries(subvalue) for key, subvalue in value.items()}
             return value
 
